@@ -40,8 +40,15 @@ CLAIMED["C01"] = {
             "direct/list/nested references, any file order): run() succeeds, every command is entered and left exactly once, "
             "nothing else executes, every result is F of the memoised results it references (C01_exactly_once, by an "
             "invariant over the fuelled DFS generalised over the stack of unfinished commands); every acyclic program passes "
-            "the pre-pass; any history of further run()/result accesses changes nothing (C01_history). Model tied to the "
-            "code by differential runs on random DAGs with probe commands.",
+            "the pre-pass; any history of further run()/result accesses changes nothing (C01_history). RESUMING (C01_resume): "
+            "started from ANY consistent partial state - what result reads before the first run, a run that failed inside some "
+            "execute(), or an interrupted run leave behind; the trace recorded so far is arbitrary - run() succeeds, executes exactly "
+            "the commands that were not finished, each once, keeps every memoised result and ends in the solution of the graph's "
+            "equations; and a run in which some execute() fails (any partial semantics that agrees with F where defined) leaves "
+            "such a consistent state behind (C01_failed_run_leaves_a_consistent_state, Model/SchedFail.v). Model tied to the "
+            "code by differential runs on random DAGs with probe commands: programs loaded from text and built / edited through "
+            "the API (references by name or by Command object), histories of run()/result reads, and histories in which commands "
+            "fail the first time they execute (the state left behind and the run that follows are both compared with the model).",
     "note": SCHED_NOTE, "technique": "Rocq proof (invariant/induction over fuelled DFS) + differential correspondence on random DAGs",
     "design": "DESIGN.md section 4 C01",
 }
